@@ -243,7 +243,7 @@ def search_split(ctx):
 
 
 def search_pairs(ctx):
-    ctx.given_shared(pair_case(), ctx.total(160, 4000))
+    ctx.given_shared(pair_case(), ctx.total(160, 2000))
 
 
 SUBS = [
